@@ -1,4 +1,4 @@
-HOOK_COMMITS = ["d197d80"]
+HOOK_COMMITS = ["d197d80", "eeaa9cc"]
 NOTES = "All checks are generated-input search (proptest choice sequences, exhaustive small-domain enumeration) against explicit oracles; see DESIGN.md. Exit 2 = inconclusive (build failure / watchdog), never a violation."
 NOT_CLAIMED = {}
 CLAIMED = {
